@@ -487,8 +487,11 @@ def var2h(se, nbsec_per_period=3600, maxgapsec=5*86400,
     ref = datetime(1970, 1, 1)
     hstartsec = np.int64((hstart-ref).total_seconds())
 
-    end = se.index[-1]
-    nvalh = np.int32((end-start).total_seconds()/nbsec_per_period)
+    # Duration in wall-clock time, like the time stamps passed to the kernel
+    # (the elapsed time of a time zone aware index differs from it when the
+    # series spans a change of UTC offset)
+    wall = se.index.tz_localize(None)
+    nvalh = np.int32((wall[-1]-wall[0]).total_seconds()/nbsec_per_period)
     hvalues = np.nan*np.ones(nvalh, dtype=np.float64)
 
     # Run C function
